@@ -24,6 +24,10 @@ def obligations(tier, seed=0):
         for entry in ('libmp', 'mpf', 'mpc'):
             for bc in ((1, 9, 70, 300) if kind == 'fin' else (9,)):
                 obs.append((FC + 'pickle_rt', dict(kind=kind, bc=bc, entry=entry)))
+    # complex values whose imaginary part is a special value
+    for kind in ('fin', 'zero', 'inf', 'nan'):
+        for ikind in ('zero', 'inf', 'ninf', 'nan'):
+            obs.append((FC + 'pickle_rt', dict(kind=kind, bc=9, entry='mpc', ikind=ikind)))
     # copy.copy / copy.deepcopy of a value longer than the current working precision
     for bc in (9, 70):
         for entry in ('copy', 'deepcopy'):
